@@ -28,6 +28,11 @@ let string_of_hex h = if h = "-" then "" else
   String.init n (fun i -> Char.chr (int_of_string ("0x" ^ String.sub h (2 * i) 2)))
 let hexb l = hex_of_string (string_of_bytes l)
 
+let hash_mask = (1 lsl 40) - 1
+let hash_str h s =
+  let h = ref h in
+  String.iter (fun c -> h := (!h * 1000003 + Char.code c) land hash_mask) s; !h
+
 (* ---------- C20: token.File ---------- *)
 let file_case out text pos end_ =
   let b = bytes_of_string text in
@@ -119,6 +124,91 @@ let lex_line (s : string) (np : bool) (proj : string) : string =
   in
   go (init_lexer (bytes_of_string s)) 0
 
+(* ---------- quote (C15) ---------- *)
+let isprint_table : (int * int) array ref = ref [||]
+let load_isprint path =
+  let ic = open_in path in
+  let l = ref [] in
+  (try while true do
+      let line = input_line ic in
+      match String.split_on_char ' ' line with
+      | [a; b] -> l := (int_of_string a, int_of_string b) :: !l
+      | _ -> ()
+    done with End_of_file -> ());
+  close_in ic;
+  isprint_table := Array.of_list (List.rev !l)
+let is_print_n (r : n) : bool =
+  let r = int_of_n r in
+  let t = !isprint_table in
+  let lo = ref 0 and hi = ref (Array.length t - 1) and found = ref false in
+  while not !found && !lo <= !hi do
+    let mid = (!lo + !hi) / 2 in
+    let (a, b) = t.(mid) in
+    if r < a then hi := mid - 1 else if r > b then lo := mid + 1 else found := true
+  done; !found
+
+let quote_line (s : string) : string =
+  let b = bytes_of_string s in
+  Printf.sprintf "%s %s %s" (hexb (quote_string is_print_n b)) (hexb (quote_bytes b))
+    (match quote_ident is_print_n b with None -> "CRASH" | Some q -> hexb q)
+
+let quote_cases out =
+  try while true do
+    let s = string_of_hex (String.trim (input_line stdin)) in
+    Printf.fprintf out "%s => %s\n" (hex_of_string s) (quote_line s)
+  done with End_of_file -> ()
+
+let encode_rune_int r = string_of_bytes (encode_rune (n_of_int r))
+
+let quote_exh out mode a b c verbose =
+  let count = ref 0 and h = ref 0 in
+  let emit s =
+    let blk = !count / 4096 in
+    if verbose < 0 || blk = verbose then begin
+      let line = quote_line s in
+      if verbose >= 0 then Printf.fprintf out "%s => %s\n" (hex_of_string s) line
+      else h := hash_str !h line
+    end;
+    incr count;
+    if !count mod 4096 = 0 then begin (if verbose < 0 then Printf.fprintf out "%d %d\n" (!count / 4096) !h); h := 0 end in
+  if mode = "bytes" then begin
+    let maxlen = a and lo = b and hi = c in
+    let rec go prefix n =
+      emit prefix;
+      if n < maxlen then for c = 0 to 255 do go (prefix ^ String.make 1 (Char.chr c)) (n + 1) done in
+    if lo = 0 then emit "";
+    for c = lo to hi - 1 do go (String.make 1 (Char.chr c)) 1 done
+  end else begin
+    for r = a to b - 1 do
+      if not (r >= 0xD800 && r <= 0xDFFF) then emit ("a" ^ encode_rune_int r ^ "'")
+    done
+  end;
+  if !count mod 4096 <> 0 && verbose < 0 then Printf.fprintf out "%d %d\n" (!count / 4096 + 1) !h
+
+let utf8_sweep out =
+  let h = ref 0 in
+  for r = 0 to 0x110000 do
+    let e = encode_rune_int r in
+    let sp = if is_space_rune (n_of_int r) then 1 else 0 in
+    h := hash_str !h (Printf.sprintf "%d %s %d;" r (hex_of_string e) sp)
+  done;
+  Printf.fprintf out "encode %d\n" !h;
+  h := 0;
+  let bnd = [0x00; 0x7f; 0x80; 0x8f; 0x90; 0x9f; 0xa0; 0xbf; 0xc0; 0xc1; 0xc2; 0xdf; 0xe0; 0xe1; 0xec; 0xed; 0xee; 0xef; 0xf0; 0xf1; 0xf3; 0xf4; 0xf5; 0xff] in
+  let str l = String.init (List.length l) (fun i -> Char.chr (List.nth l i)) in
+  let dec s =
+    let (r, n) = decode_rune (bytes_of_string s) in
+    h := hash_str !h (Printf.sprintf "%s %d %d;" (hex_of_string s) (int_of_n r) (int_of_nat n)) in
+  dec "";
+  for a = 0 to 255 do
+    dec (str [a]);
+    for b = 0 to 255 do dec (str [a; b]) done
+  done;
+  List.iter (fun a -> List.iter (fun b -> List.iter (fun c ->
+    dec (str [a; b; c]);
+    List.iter (fun d -> dec (str [a; b; c; d])) bnd) bnd) bnd) bnd;
+  Printf.fprintf out "decode %d\n" !h
+
 (* ---------- split (C12) ---------- *)
 let split_line (s : string) : string =
   match split (bytes_of_string s) with
@@ -145,10 +235,6 @@ let lex_cases out np proj =
     Printf.fprintf out "%s => %s\n" (hex_of_string s) (lex_line s np proj)
   done with End_of_file -> ()
 
-let hash_mask = (1 lsl 40) - 1
-let hash_str h s =
-  let h = ref h in
-  String.iter (fun c -> h := (!h * 1000003 + Char.code c) land hash_mask) s; !h
 
 let lex_exh out alpha maxlen np prefix0 first proj verbose =
   let alpha = List.map string_of_hex (String.split_on_char ',' alpha) in
@@ -175,6 +261,12 @@ let () =
    | ["file-cases"] -> file_cases out
    | ["errstr-cases"] -> errstr_cases out
    | ["split-cases"] -> split_cases out
+   | ["quote-cases"; tbl] -> load_isprint tbl; quote_cases out
+   | ["quote-exh"; tbl; "bytes"; n; lo; hi] -> load_isprint tbl; quote_exh out "bytes" (int_of_string n) (int_of_string lo) (int_of_string hi) (-1)
+   | ["quote-exh"; tbl; "bytes"; n; lo; hi; v] -> load_isprint tbl; quote_exh out "bytes" (int_of_string n) (int_of_string lo) (int_of_string hi) (int_of_string v)
+   | ["quote-exh"; tbl; "runes"; lo; hi] -> load_isprint tbl; quote_exh out "runes" (int_of_string lo) (int_of_string hi) 0 (-1)
+   | ["quote-exh"; tbl; "runes"; lo; hi; v] -> load_isprint tbl; quote_exh out "runes" (int_of_string lo) (int_of_string hi) 0 (int_of_string v)
+   | ["utf8-sweep"] -> utf8_sweep out
    | ["lex-cases"; m; proj] -> lex_cases out (m = "np") proj
    | ["lex-exh"; a; n; m; p; f; proj; _] -> lex_exh out a (int_of_string n) (m = "np") (string_of_hex p) (int_of_string f) proj (-1)
    | ["lex-exh"; a; n; m; p; f; proj; _; v] -> lex_exh out a (int_of_string n) (m = "np") (string_of_hex p) (int_of_string f) proj (int_of_string v)
